@@ -53,7 +53,7 @@ def build(tier, workdir, seed):
     for (t, v), fs in sorted(u.pairs.items()):
         if len(fs) != 6:
             continue
-        nm = 'lemma_%s_%s' % (re.sub(r'\W+', '_', t), re.sub(r'\W+', '_', v))
+        nm = 'lemma_%s__%s' % (re.sub(r'\W+', '_', t), re.sub(r'\W+', '_', v))
         ct, cv = u.lw.ctype(t), u.lw.ctype(v)
         lem.append('''void %s(void) { %s t; %s u;
   _Bool lt = %s(t,u), eq = %s(t,u), gt = %s(t,u), ne = %s(t,u), le = %s(t,u), ge = %s(t,u);
@@ -88,7 +88,7 @@ def replay(ctx, job, ob, steps, base):
             vals.setdefault(s['lhs'], s['value']['data'])
     pair = None
     for (t, v), fs in u.pairs.items():
-        if job.enforce in fs.values() or job.name.endswith('lemma_%s_%s' % (re.sub(r'\W+', '_', t), re.sub(r'\W+', '_', v))):
+        if job.enforce in fs.values() or job.name.endswith('lemma_%s__%s' % (re.sub(r'\W+', '_', t), re.sub(r'\W+', '_', v))):
             pair = (t, v)
     if pair is None:
         return None
